@@ -652,7 +652,7 @@ def c18(ctx, replay):
                       properties=["SlotWriteOnce"])
         V.model_check(ctx, "key-orders", "MC_SeriesKey", dict(MaxLabels=2, ValSet=q("tiny")), invariants=["KeyIsLabelSet"])
         ncases = sum(1 for _ in open(cases))
-        V.run_harness(ctx, hbin, ["docker", "-cases", cases, "-out", trace, "-rand", T(ctx, 25, 300), "-seed", ctx.seed, "-opt", "mode=determinism"], env=env)
+        V.run_harness(ctx, hbin, ["docker", "-cases", cases, "-out", trace, "-rand", T(ctx, 70, 400), "-seed", ctx.seed, "-opt", "mode=determinism"], env=env)
     bad, scns, nev = V.validate_trace(ctx, "Trace_Determinism", trace, chunk_events=20000)
     verdict = V.classify_rejections(ctx, "C18", "Trace_Determinism", hbin, "docker", bad, scns, extra_args=["-opt", "mode=determinism"])
     # the race detector observed every forced schedule
